@@ -137,3 +137,23 @@ package compact
 //@   loop 3 invariant i >= 0 && polygons != nil
 //@   loop 4 invariant i >= 0 && polygons != nil
 //@   ensures a.Polygons != nil
+
+// ---- C11: strings ------------------------------------------------------------------
+// A string is its length as a uvarint followed by its bytes. Both directions are stated
+// over the uvarint wire view of package encoding (revealed in these two units, so a
+// decoder that special-cases short lengths correctly still verifies).
+
+//@ func MarshalString
+//@   requires encoding.VerifUvlen(uint64(len(s))) + len(s) <= len(buffer)
+//@   modifies buffer
+//@   ensures result == encoding.VerifUvlen(uint64(len(s))) + len(s)
+//@   ensures encoding.VerifUvOK(buffer, 0) && encoding.VerifUvVal(buffer, 0) == uint64(len(s)) && encoding.VerifUvLen(buffer, 0) == encoding.VerifUvlen(uint64(len(s)))
+//@   ensures forall(j, 0, len(s), buffer[encoding.VerifUvlen(uint64(len(s))) + j] == s[j])
+//@   ensures unchanged(buffer, result, len(buffer))
+
+//@ func UnmarshalString
+//@   requires len(buffer) >= 1 && encoding.VerifUvOK(buffer, 0) && encoding.VerifUvLen(buffer, 0) <= len(buffer)
+//@   requires encoding.VerifUvVal(buffer, 0) <= uint64(len(buffer) - encoding.VerifUvLen(buffer, 0))
+//@   ensures result1 == encoding.VerifUvLen(buffer, 0) + int(encoding.VerifUvVal(buffer, 0))
+//@   ensures len(result0) == int(encoding.VerifUvVal(buffer, 0))
+//@   ensures forall(j, 0, len(result0), result0[j] == buffer[encoding.VerifUvLen(buffer, 0) + j])
